@@ -68,7 +68,7 @@ func runC07(t *testing.T, seed uint64, m *Mask) *Report {
 	nCli := 1 + r.Intn(2)
 	nOps := 4 + r.Intn(14)
 	var ops []c07Op
-	kinds := []string{"dial", "dial", "dial", "dial_reject_accept", "dial_reject_dial", "setid_fresh", "setid_collide", "call", "call", "push", "close_cli", "close_srv", "close_twice", "cut", "close_vs_cut", "close_vs_remote_close", "call_vs_close", "setid_vs_close", "dial_age", "dial_age"}
+	kinds := []string{"dial", "dial", "dial", "dial_reject_accept", "dial_reject_dial", "setid_fresh", "setid_collide", "call", "call", "push", "close_cli", "close_srv", "close_twice", "cut", "close_vs_cut", "close_vs_remote_close", "call_vs_close", "setid_vs_close", "dial_age", "dial_age", "push_vs_remote_close", "push_vs_cut", "call_vs_remote_close"}
 	for i := 0; i < nOps; i++ {
 		ops = append(ops, c07Op{kind: kinds[r.Intn(len(kinds))], a: r.Intn(1000), b: r.Intn(1000), s: fmt.Sprintf("id%d", r.Intn(4))})
 	}
@@ -314,6 +314,38 @@ func runC07(t *testing.T, seed uint64, m *Mask) *Report {
 				kill(x.pair)
 				simrt.WaitQuiescent()
 				checkIndex("after cut")
+			case "push_vs_remote_close", "push_vs_cut", "call_vs_remote_close":
+				// a message is on its way (or just read, its handler not yet running) when the receiving side closes
+				// the session or the connection is lost: once the close has completed no handler may start
+				x := pick(op.a)
+				if x == nil || x.pair.conn == nil {
+					continue
+				}
+				other := x.pair.cli
+				if x == other {
+					other = x.pair.srv
+				}
+				done := 0
+				n := 1 + op.b%3
+				simrt.GoNamed("racer-a", func() {
+					for k := 0; k < n; k++ {
+						issue(x, map[bool]string{true: "call", false: "push"}[op.kind == "call_vs_remote_close"])
+					}
+					done++
+				})
+				simrt.GoNamed("racer-b", func() {
+					simrt.YieldN(op.a % 23)
+					if op.kind == "push_vs_cut" {
+						x.pair.conn.CutNow()
+					} else {
+						other.sess.Close()
+					}
+					done++
+				})
+				simrt.WaitCond(func() bool { return done == 2 })
+				kill(x.pair)
+				simrt.WaitQuiescent()
+				checkIndex("after " + op.kind)
 			case "close_vs_cut", "close_vs_remote_close", "call_vs_close", "setid_vs_close":
 				x := pick(op.a)
 				if x == nil || x.pair.conn == nil {
@@ -460,6 +492,24 @@ func checkC07Logs(e *world.Env, ends []*c07End, pairs []*c07Pair, trace []string
 			e.Fail("C07/illegal-status-edge", "session %s: %s -> %s | history: %s", world.SessKey(ev.Sess), stName(from), stName(ev.To), hist)
 		}
 		cur[ev.Sess] = ev.To
+	}
+	// (1b) once a session has reached a closed state no handler starts on it
+	closedAt := map[string]int{}
+	for _, ev := range e.Obs.Status {
+		if ev.To == 3 || ev.To == 5 {
+			k := e.Obs.PeerName(ev.Sess.Peer()) + "|" + world.SessKey(ev.Sess)
+			if _, ok := closedAt[k]; !ok {
+				closedAt[k] = ev.Step
+			}
+		}
+	}
+	for _, ev := range e.Obs.Handlers {
+		if ev.Exit {
+			continue
+		}
+		if at, ok := closedAt[ev.Peer+"|"+ev.Sess]; ok && at < ev.Step {
+			e.Fail("C07/handler-started-on-closed-session", "a %s handler (%s) was entered at step %d on session %s, which had reached its closed state at step %d | history: %s", ev.Kind, ev.Method, ev.Step, ev.Sess, at, hist)
+		}
 	}
 	// (2) hook order and (3) disconnect hook counts, per session key
 	hookAt := map[string]int{}
